@@ -177,3 +177,57 @@ def absorbs(ctx, node, exc_name):
                     return True
                 return False
     return False
+
+
+# ----------------------------------------------------------- local def-use
+def defs_of(ctx, f, name):
+    """All values assigned to local `name` in f's own body: list of (stmt, value
+    or None when bound by for/with/unpacking)."""
+    out = []
+    for n in ctx.m.walk_own(f.node):
+        if isinstance(n, ast.Assign):
+            for t in n.targets:
+                if isinstance(t, ast.Name) and t.id == name:
+                    out.append((n, n.value))
+                elif isinstance(t, (ast.Tuple, ast.List)):
+                    for i, x in enumerate(t.elts):
+                        if isinstance(x, ast.Name) and x.id == name:
+                            if isinstance(n.value, (ast.Tuple, ast.List)) and len(n.value.elts) == len(t.elts):
+                                out.append((n, n.value.elts[i]))
+                            else:
+                                out.append((n, None))
+        elif isinstance(n, ast.AnnAssign) and isinstance(n.target, ast.Name) and n.target.id == name and n.value is not None:
+            out.append((n, n.value))
+        elif isinstance(n, ast.AugAssign) and isinstance(n.target, ast.Name) and n.target.id == name:
+            out.append((n, None))
+        elif isinstance(n, (ast.For, ast.comprehension)):
+            if any(isinstance(x, ast.Name) and x.id == name for x in ast.walk(n.target)):
+                out.append((n, None))
+        elif isinstance(n, ast.NamedExpr) and isinstance(n.target, ast.Name) and n.target.id == name:
+            out.append((n, n.value))
+    return out
+
+
+def single_def(ctx, f, name):
+    d = defs_of(ctx, f, name)
+    if len(d) == 1 and name not in f.params:
+        return d[0][1]
+    return None
+
+
+def deref(ctx, f, e, depth=3):
+    """Follow single-assignment locals: the expression a Name stands for."""
+    while isinstance(e, ast.Name) and depth > 0:
+        v = single_def(ctx, f, e.id)
+        if v is None:
+            break
+        e = v
+        depth -= 1
+    return e
+
+
+def is_call_to(ctx, f, e, dotted):
+    if not isinstance(e, ast.Call) or not isinstance(e.func, (ast.Name, ast.Attribute)):
+        return False
+    d = ctx.m.dotted(f.rel, e.func)
+    return d == dotted or (isinstance(dotted, (set, tuple, list)) and d in dotted)
